@@ -96,9 +96,9 @@ func (rig *rpcRig) call(e error) (error, codes.Code, error) {
 }
 
 func runC20(c *core.Ctx, r *core.Result) {
-	p := plan{fullDepth: 2, coreDepth: 3, strDepth: 2, alphabet: tm.REG}
+	p := plan{fullDepth: 3, coreDepth: 4, strDepth: 2, alphabet: tm.REG}
 	if c.Thorough() {
-		p = plan{fullDepth: 3, coreDepth: 4, strDepth: 2, pairDepth: 1, alphabet: tm.REG}
+		p = plan{fullDepth: 4, coreDepth: 5, strDepth: 2, pairDepth: 1, alphabet: tm.REG}
 	}
 	r.Bounds = p.String() + "; one RPC per term through grpc.Server+UnaryServerInterceptor and a client with UnaryClientInterceptor over memlistener; plus a message-size sweep (every ASCII padding length up to the bound followed by 2/3/4-byte runes)"
 	r.Rule = "state = (term, RPC); non-trivial = the handler's error is not already a gRPC status error (so it is encoded into the status details and decoded by the client interceptor)"
